@@ -4617,6 +4617,72 @@ grid("colors", "g_rare_labels", _g_rare_labels,
      dict(fn=[("hls", "labels_to_colors_hls"), ("tab", "labels_to_colors_tableau")], extra=[("1", 1), ("3", 3)]), rand=True)
 
 
+# a caller-owned list of colour mappers that is SHORTER than the number of annotation rows, and the plain (non-callable) searches under every radius
+@heap
+def list_mappers_short():
+    return [pp.labels_to_colors_tableau]
+
+
+def _g_scm_mappers(H, meta, extra):
+    kw = dict(meta_to_colors=H["list_mappers_short"])
+    if meta == "list":
+        kw["meta_columns"] = H["list_meta"]
+    elif meta == "dict":
+        kw["meta_columns"] = H["dict_meta"]
+    elif meta == "one":
+        kw["meta_columns"] = ["epitope"]
+    kw.update(extra)
+    return pp.similarity_clustermap(H["df_cluster"], **kw)
+
+
+grid("clustermap", "g_scm_mappers", _g_scm_mappers,
+     dict(meta=[("none", "none"), ("list", "list"), ("dict", "dict"), ("one", "one")], extra=[("plain", {}), ("ab", {"alpha_column": None})]), rand=True, slow=True)
+
+
+def _g_radius_plain(H, fn, seqs, max_edits, mode):
+    kw = dict(custom_distance=mode)
+    if fn == "symdel":
+        return sorted(prs.symdel(seqs, max_edits=max_edits, **kw))
+    if fn == "nn2":
+        return sorted(prs.nearest_neighbor(seqs, max_edits=max_edits, seqs2=H["seqs_list2"], **kw))
+    if fn == "symdeldb":
+        return sorted(prs.SymdelDB(seqs, max_edits).lookup(H["seqs_list2"], **kw))
+    if fn == "lookupdb":
+        return sorted(prs.LookupDB(H["seqs_short"]).lookup(H["seqs_short"], max_edits=min(max_edits, 2), **kw))
+    if fn == "hash_based":
+        return sorted(prs.hash_based(H["seqs_short"] if max_edits > 1 else seqs, max_edits=min(max_edits, 2), **kw))
+    if fn == "hash_short":
+        return sorted(prs.hash_based(H["seqs_short"], max_edits=min(max_edits, 2), **kw))
+    return sorted(prs.kdtree(seqs, max_edits=max_edits, **kw))
+
+
+grid("symdel", "g_radius_plain", _g_radius_plain,
+     dict(fn=[(x, x) for x in ("symdel", "nn2", "symdeldb", "lookupdb", "hash_based", "hash_short", "kdtree")], seqs=[("list", "H:seqs_list"), ("arr", "H:seqs_arr")],
+          max_edits=[("1", 1), ("2", 2), ("3", 3)], mode=[("lev", None), ("ham", "hamming")]), cap=60)
+
+
+# hash_based / LookupDB share one edit-ball generator: every radius x mode on the same strings, in a small group of their own
+def _g_hash_radius(H, fn, max_edits, mode):
+    if fn == "hash_based":
+        return sorted(prs.hash_based(H["seqs_short"], max_edits=max_edits, custom_distance=mode))
+    if fn == "hash_arr":
+        return sorted(prs.hash_based(H["seqs_arr"], max_edits=max_edits, custom_distance=mode))
+    return sorted(prs.LookupDB(H["seqs_short"]).lookup(H["seqs_arr"], max_edits=max_edits, custom_distance=mode))
+
+
+for _fn in ("hash_based", "hash_arr", "lookupdb"):
+    for _k in (1, 2):
+        for _mode in (("lev", None), ("ham", "hamming")):
+            def _mk(fn=_fn, k=_k, mode=_mode[1]):
+                def call(H):
+                    return _g_hash_radius(H, fn, k, mode)
+                return call
+            _f = _mk()
+            _f.__name__ = "hash_radius[fn=%s,max_edits=%d,mode=%s]" % (_fn, _k, _mode[0])
+            _f._grid_fn = _g_hash_radius
+            OPS[_f.__name__] = Op(_f.__name__, _f, "hash_based")
+
+
 # =============================================================================================
 # random-argument templates: the ARGUMENTS come from a seeded generator A (one fixed value per 'base~<n>' name), drawn from
 # small spaces on purpose, so that two templates of one base often share part of what a careless cache key would look at - the
@@ -4726,6 +4792,9 @@ def r_symdel_two(H, A):
 @randop("hash_based", post=sorted_list)
 def r_hash_based(H, A):
     seqs = H.arg("seqs", _r_container(A, _r_seqs(A)))
+    if A.random() < 0.5:
+        seqs = H.arg("short", _r_container(A, _r_seqs(A, short=True)))
+        return prs.hash_based(seqs, max_edits=A.choice([1, 2]), custom_distance=_r_mode(A))
     return prs.hash_based(seqs, max_edits=1, custom_distance=_r_mode(A))
 
 
